@@ -75,6 +75,16 @@ M = [
  ("M06B", ["C05", "C10"], TK + "fake_trx.py", "msg.toa256 -= src_trx.ta * 256", "msg.toa256 += src_trx.ta * 256", "timing advance applied with the wrong sign"),
  ("M06C", ["C05", "C10"], TK + "ctrl_if_trx.py", "self.trx.tx_att_base = att_req", "self.trx.tx_att_base = 0", "SETPOWER ignored"),
  ("M06D", ["C05"], TK + "ctrl_if_trx.py", "\t\t\tif not self.trx.ready:\n\t\t\t\tlog.error(\"(%s) Transceiver is not ready\"", "\t\t\tif self.trx._rx_freq is None and self.trx.fh is None:\n\t\t\t\tlog.error(\"(%s) Transceiver is not ready\"", "POWERON accepted with only RXTUNE done"),
+ ("M070", ["C10"], TK + "fake_trx.py", "msg.rssi = src_trx.tx_power - src_msg.pwr - self.PATH_LOSS_DEFAULT", "msg.rssi = src_trx.tx_power + src_msg.pwr - self.PATH_LOSS_DEFAULT", "burst attenuation added instead of subtracted"),
+ ("M071", ["C10"], TK + "gsm_shared.py", "nb_seq = burst[3 + 57 + 1:][:26]", "nb_seq = burst[3 + 57:][:26]", "normal-burst training sequence looked up one bit early"),
+ ("M072", ["C10"], TK + "gsm_shared.py", "\"01001110101100000100111010\"", "\"01001110101100000100111011\"", "NB_TS5 mistyped in its last bit"),
+ ("M073", ["C10"], TK + "burst_fwd.py", "tx_msg = rx_msg.trans(ver = trx.data_if._hdr_ver)", "tx_msg = rx_msg.trans(ver = src_trx.data_if._hdr_ver)", "header version taken from the sender"),
+ ("M074", ["C10"], TK + "transceiver.py", "self.data_if.send_msg(msg, legacy = True)", "self.data_if.send_msg(msg, legacy = False)", "legacy padding omitted"),
+ ("M075", ["C10", "C01", "C04"], TK + "data_msg.py", "_tab_ubit2sbit = array('b', [-127 if b else 127  for b in range(0x100)])", "_tab_ubit2sbit = array('b', [-126 if b else 127  for b in range(0x100)])", "transmitted 1 arrives as -126 instead of full confidence"),
+ ("M076", ["C10"], TK + "fake_trx.py", "\t\tmsg.ci = self.ci\n", "\t\tmsg.ci = self.ci if self.ci_rand_threshold == 0 else self.ci + 2 * self.ci_rand_threshold\n", "C/I drawn outside its window when randomised"),
+ ("M077", ["C10"], TK + "gsm_shared.py", "AB_TS0 = (0, BurstType.ACCESS, \"01001011011111111001100110101010001111000\")", "AB_TS0 = (0, BurstType.ACCESS, \"01001011011111111001100110101010001111001\")", "AB_TS0 mistyped (detection falls back to TSC 0 anyway; only the generator check can see it)"),
+ ("M078", ["C10"], TK + "fake_trx.py", "\t\tif src_trx.ta != 0:\n\t\t\tmsg.toa256 -= src_trx.ta * 256", "\t\tif self.ta != 0:\n\t\t\tmsg.toa256 -= self.ta * 256", "timing advance of the recipient applied instead of the sender's"),
+ ("M079", ["C10"], TK + "fake_trx.py", "\t\t\tmsg.tsc_set = ss.tsc_set if ss is not None else 0", "\t\t\tmsg.tsc_set = ss.tsc_set + (ss.bt is BurstType.SYNC) if ss is not None else 0", "sync bursts reported with TSC set 1"),
 ]
 
 
